@@ -549,6 +549,9 @@ C09_Accept(c, trk, call, o) ==
   IF call.op \in {"ref_from_slice", "ref_from_bytes", "bytes_ref"} /\ call.h \in {"mb", "htag"}
   THEN Controlled(o) /\ (o.k = "ok" => (Has(o.v, "sv") => o.v.at >= 0 /\ o.v.at + o.v.sv <= Len(c.mem))
                                        /\ (Has(o.v, "len") => o.v.at >= 0 /\ o.v.at + o.v.len <= Len(c.mem)))
+  \* a declared length below 16 is refused as too short whatever lies behind it (nothing behind it is looked at)
+  ELSE IF call.op = "hload" /\ ~Has(c, "memx") /\ ~IsNull(call) /\ Len(c.mem) >= 12 /\ U32At(c.mem, 8) < 16
+  THEN Controlled(o) /\ AcceptHLoad(FALSE, c.mem, o)
   ELSE IF call.op \in HeaderOps \/ (call.op \in {"next", "clone", "nth", "count", "last", "size_hint"} /\ HasIt(trk, call.it) /\ ItOf(trk, call.it).kind = "htags")
   THEN /\ Controlled(o)
        /\ LET L == U32At(c.mem, 8) IN \A e \in Exts(o) : Inside(e, 16, L)
